@@ -71,7 +71,7 @@ def case_energy_symgrid(ctx, nf, nd, layout):
     ctx.reach("D-E.symgrid")
 
 
-def case_moments(ctx, nf, nd, dgrid, layout, nanmask=None):
+def case_moments(ctx, nf, nd, dgrid, layout, nanmask=None, dir_major=False):
     """D-E / D-AB: e = sum E dtheta; a1 e = sum E cos(theta) dtheta, ... ; D-C: 1D reduction carries them"""
     C.shim_modules(ctx)
     f = C.freq_grid(ctx, "nonuniform0", nf)
@@ -79,7 +79,16 @@ def case_moments(ctx, nf, nd, dgrid, layout, nanmask=None):
     shp = C.layout_shape(layout)
     E = ctx.reals("E", shp + (nf, nd))
     E = C.with_nan(ctx, E, nanmask)
-    s = C.make_2d(ctx, f, d, E, layout)
+    if dir_major:
+        # same spectrum stored direction-major: dims (time, direction, frequency) - the bin widths must be matched to
+        # the direction dimension by name, not by position
+        from ocean_science_utilities.wavespectra.spectrum import create_2d_spectrum
+        nt = shp[0]
+        s = create_2d_spectrum(f, d, np.transpose(E, (0, 2, 1)).copy(), np.array([C.T0 + 3600 * i for i in range(nt)]),
+                               np.arange(nt) * 1.0, np.arange(nt) * 2.0, depth=np.full(nt, np.inf),
+                               dims=("time", "direction", "frequency"))
+    else:
+        s = C.make_2d(ctx, f, d, E, layout)
     w = _widths(d)
     c1, s1 = _trig(ctx, d, 1)
     c2, s2 = _trig(ctx, d, 2)
@@ -225,6 +234,8 @@ def cases(tier):
     add("case_moments", "mom_nan_nd3", nf=2, nd=3, dgrid="uniform_off", layout="scalar", nanmask=[0, 1, 0, 0, 0, 0])
     add("case_moments", "mom_nan_nd4_time", nf=2, nd=4, dgrid="nonuniform", layout="time",
         nanmask=[1, 0, 0, 0, 0, 0, 0, 1, 0, 0, 0, 0, 0, 1])
+    add("case_moments", "mom_dirmajor_nf3_nd3_nonuniform", nf=3, nd=3, dgrid="nonuniform", layout="time", dir_major=True)
+    add("case_moments", "mom_dirmajor_nf2_nd4_uniform_off", nf=2, nd=4, dgrid="uniform_off", layout="time", dir_major=True)
     add("case_numba_integrals", "numba_2x3", nf=2, nd=3)
     add("case_numba_integrals", "numba_3x4", nf=3, nd=4)
     for nd, dg in ((3, "nonuniform"), (4, "uniform_off"), (5, "nonuniform")) + (() if q else ((6, "nonuniform"),
